@@ -187,12 +187,12 @@ Fixpoint split_pipes (l : list token) (cur : list token) (acc : list (list token
       else split_pipes r (cur ++ [(sep, v)]) acc
   end.
 
-(** * drain_env_tokens (types.rs): name of alnum/underscore chars, =, rest without newline *)
+(** * drain_env_tokens (types.rs): name of alnum/underscore chars, =, then any rest (the pattern carries the s flag, so the rest may hold newlines) *)
 Fixpoint split_env_aux (seen : bool) (name : str) (s : str) : option (str * str) :=
   match s with
   | [] => None
   | c :: r => if is_alnum_us c then split_env_aux true (name ++ [c]) r
-              else if (c =? c_eq) && seen && negb (has_char c_nl r) then Some (name, r)
+              else if (c =? c_eq) && seen then Some (name, r)
               else None
   end.
 Definition split_env (s : str) : option (str * str) := split_env_aux false [] s.
